@@ -43,7 +43,7 @@ class C13(Check):
     stub = ["integrand values (SimFunction.eval: keyed hash; counts distinct points itself)", "clocks (SimClock)"]
     rule = ("schedule = strategy (dimension-wise / extend-split / cell) with the real error estimator, hash-valued scalar or vector integrand, "
             "reference vector (all non-zero or all zero), norm, and limits (tol, min_evaluations, max_evaluations) drawn so that every "
-            "ordering of which limit bites first occurs, including limits met at the first evaluation. Observers count evaluate/refine calls "
+            "ordering of which limit bites first occurs, including limits met at the first evaluation; 35 % of the runs are continued with new limits, 30 % of those continue the instance that save_to_file / restore_from_file give back; 8 % of the non-zero references are of magnitude 1e-9 ... 1e-12. Observers count evaluate/refine calls "
             "and record the result and the stub's own distinct-point count at every evaluation. A state is the refinement structure; "
             "distinct_nontrivial counts distinct structures at the stop of a run")
     expected_probes = ["continued_with_new_limits", "continued_restored_instance", "error_equals_tolerance_at_stop", "points_equal_minimum_at_stop", "stop_by_tolerance", "stop_by_max", "stop_at_first_evaluation", "min_evaluations_delayed_stop", "zero_reference", "uq_operation"]
